@@ -11,6 +11,7 @@ Line-protocol driver for the C04 model (Model/Rollup.lean).
 -/
 import LinVerif.Util.Proto
 import LinVerif.Model.Rollup
+import LinVerif.Generated.C04
 
 namespace LinVerif.Driver.C04
 open LinVerif LinVerif.Rollup
@@ -141,7 +142,7 @@ def step (d : DS) (ws : List String) : DS × String :=
           match acc, r with
           | some l, .merge i inputs =>
             let fds := inputs.filterMap (fun k => (d.files.find? (·.1 = k)).map (·.2))
-            match mergeFiles (mkR stdCal d.src i (d.day * oneDay) h) fds with
+            match mergeFiles Generated.C04.placementByTimestamp (mkR stdCal d.src i (d.day * oneDay) h) fds with
             | some o => some (l ++ [(i, o)])
             | none => none
           | acc, _ => acc) (some [])
